@@ -300,6 +300,7 @@ func styles() []styleSpec {
 		{` fill="none" stroke="red" stroke-dasharray="6,3" stroke-dashoffset="2" transform="translate(3,4)"`, ``, ``, with(func(w *want) { w.fill = color.RGBA{}; w.stroke = red; w.dash = []float64{6, 3}; w.dashOffset = 2 }), "dash array and offset before a transform on the same element", &aff{1, 0, 0, 1, 3, 4}},
 		{` transform="scale(2)" fill="none" stroke="red" stroke-dasharray="4 1 2 1"`, ``, ``, with(func(w *want) { w.fill = color.RGBA{}; w.stroke = red; w.dash = []float64{4, 1, 2, 1} }), "transform before a four-element dash array", &aff{2, 0, 0, 2, 0, 0}},
 		{` fill="none"`, ``, ` stroke="red" stroke-dasharray="6 3"`, with(func(w *want) { w.fill = color.RGBA{}; w.stroke = red; w.dash = []float64{6, 3} }), "dash array inherited from g (group transforms and point lists are parsed after it)", nil},
+		{` fill="none"`, ``, ` stroke="red" stroke-width="2" stroke-dasharray="6 3" stroke-dashoffset="2"`, with(func(w *want) { w.fill = color.RGBA{}; w.stroke = red; w.sw = 2; w.dash = []float64{6, 3}; w.dashOffset = 2 }), "dash array, dash offset and a stroke width other than 1 inherited from g", nil},
 		{` fill="none" style="stroke:red;stroke-dasharray:5,2"`, ``, ``, with(func(w *want) { w.fill = color.RGBA{}; w.stroke = red; w.dash = []float64{5, 2} }), "dash array in the style attribute", nil},
 		{` fill="none" class="d"`, `.d{stroke:red;stroke-dasharray:5 1}`, ``, with(func(w *want) { w.fill = color.RGBA{}; w.stroke = red; w.dash = []float64{5, 1} }), "dash array from a CSS rule", nil},
 		{` fill="none" stroke-dasharray="none"`, ``, ` stroke="red" stroke-dasharray="6 3"`, with(func(w *want) { w.fill = color.RGBA{}; w.stroke = red }), "dasharray none overrides the inherited pattern", nil},
